@@ -9,6 +9,7 @@ import (
 	"time"
 
 	"github.com/deepteams/webp"
+	"github.com/deepteams/webp/internal/verifhook"
 	"github.com/deepteams/webp/verifx/vx"
 )
 
@@ -183,6 +184,7 @@ func checkC07(args []string) {
 	rng := rand.New(rand.NewSource(run.Seed))
 	var lines []alphLine
 	info := map[string]string{}
+	caseNo := 0
 	n := run.Pick(900, 12000)
 	for i := 0; i < n+3; i++ {
 		w, h := 1+rng.Intn(40), 1+rng.Intn(40)
@@ -208,7 +210,17 @@ func checkC07(args []string) {
 		img, plane := alphaPicture(rng, w, h, pat, typ)
 		name := fmt.Sprintf("%dx%d %s %s m%d q%v exact=%v ac%d af%d aq%d", w, h, pat, typ, o.Method, o.Quality, o.Exact, o.AlphaCompression, o.AlphaFiltering, o.AlphaQuality)
 		sig := fmt.Sprintf("%s|%s|ac%d|af%d|aq%d|m%d", pat, typ, o.AlphaCompression, o.AlphaFiltering, o.AlphaQuality, o.Method)
+		// three cases out of four: the set of prediction filters the alpha encoder tries is replaced by a single one
+		// (horizontal, vertical, gradient) through a verif hook, so that every filter runs on every pattern; whichever
+		// filter is used, the chunk records it and the plane must come back exactly
+		if ff := caseNo % 4; ff > 0 {
+			verifhook.SetOverride("alpha.filter-map", 1<<uint(ff), true)
+			name += fmt.Sprintf(" forced-filter%d", ff)
+			sig += fmt.Sprintf("|forced-filter%d", ff)
+		}
+		caseNo++
 		out, err, pan := safeEncode(img, &o)
+		verifhook.SetOverride("alpha.filter-map", 0, false)
 		if err != nil || pan != nil {
 			run.Violate("encode-fails|"+sig, fmt.Sprintf("%s: err=%v panic=%v", name, err, pan), name)
 			continue
